@@ -86,10 +86,12 @@ def _l4_two_contigs(a0: int, a1: int, a2: int, b0: int, b1: int, b2: int, g: boo
     return True
 
 
-def _build(ref, start, n, rev, conv_mask, name, paired=None):
+def _build(ref, start, n, rev, conv_mask, name, paired=None, conv_g=None):
     """read over ref[start:start+n); C (or G on the reverse strand) at offset i is shown converted iff bit i of conv_mask"""
-    exp = 'G' if rev else 'C'
-    to = 'A' if rev else 'T'
+    if conv_g is None:
+        conv_g = rev              # taps_strand 'F': the reverse-strand molecule shows G>A
+    exp = 'G' if conv_g else 'C'
+    to = 'A' if conv_g else 'T'
     seq = ''
     for i in range(n):
         b = ref[start + i]
@@ -100,7 +102,7 @@ def _build(ref, start, n, rev, conv_mask, name, paired=None):
     return r
 
 
-def _l2_calls(w0: int, w1: int, w2: int, w3: int, rev: bool, mask: int, two: bool, mask2: int) -> bool:
+def _l2_calls(w0: int, w1: int, w2: int, w3: int, rev: bool, mask: int, two: bool, mask2: int, tr: bool) -> bool:
     """
     pre: 0 <= w0 <= 3 and 0 <= w1 <= 3 and 0 <= w2 <= 3 and 0 <= w3 <= 4
     pre: 0 <= mask <= 15 and 0 <= mask2 <= 15
@@ -109,14 +111,15 @@ def _l2_calls(w0: int, w1: int, w2: int, w3: int, rev: bool, mask: int, two: boo
     A = 'ACGT'
     ref = pick(A, w0) + pick(A, w1) + pick(A, w2) + pick(B, w3)
     fa = FakeFasta({'chr1': ref})
-    reads = [_build(ref, 0, 4, rev, mask, 'a')]
+    conv_g = (rev != tr)       # taps_strand 'R' (tr) swaps which strand shows which conversion
+    reads = [_build(ref, 0, 4, rev, mask, 'a', conv_g=conv_g)]
     if two:
-        reads.append(_build(ref, 0, 4, rev, mask2, 'b'))
-    m = TAPSMolecule(fragments=None, taps=TAPS_OBJ, taps_strand='F', allow_unsafe_base_calls=True, reference=fa)
+        reads.append(_build(ref, 0, 4, rev, mask2, 'b', conv_g=conv_g))
+    m = TAPSMolecule(fragments=None, taps=TAPS_OBJ, taps_strand=('R' if tr else 'F'), allow_unsafe_base_calls=True, reference=fa)
     for r in reads:
         m._add_fragment(Fragment([r, None], umi_hamming_distance=0))
     calls = m.obtain_methylation_calls()
-    exp_base = 'G' if rev else 'C'
+    exp_base = 'G' if conv_g else 'C'
     # oracle: per position the strict-majority base over the reads, then the context letter
     want = {}
     for i in range(4):
@@ -188,9 +191,10 @@ LEMMAS = [
     dict(name='L1_context_letter', fn='_l1_context', engine='E1', timeout=_T, replay='replay.C14:replay',
          cases={'quick': [dict(id='pos%d_%s_pad%d_lc%d' % (p, 'G' if g else 'C', pad, h), pre=['pos == %d' % p, 'g == %s' % bool(g), 'pad == %d' % pad, ('lc <= 3' if h == 0 else 'lc >= 4')]) for p in (0, 1, 2) for g in (0, 1) for pad in (0, 1) for h in (0, 1)]}),
     dict(name='L2_calls_and_tags', fn='_l2_calls', engine='E1', timeout=_T, replay='replay.C14:replay',
-         cases={'quick': [dict(id='w%d_%s_%s' % (w, 'rev' if r else 'fwd', 'two' if t else 'one'), pre=['w0 == %d' % w, 'rev == %s' % bool(r), 'two == %s' % bool(t)] + ([] if t else ['mask2 == 0']))
+         cases={'quick': [dict(id='w%d_%s_%s' % (w, 'rev' if r else 'fwd', 'two' if t else 'one'), pre=['w0 == %d' % w, 'rev == %s' % bool(r), 'two == %s' % bool(t), 'tr == False'] + ([] if t else ['mask2 == 0']))
                           for w in range(4) for r in (0, 1) for t in (0,)] +
-                         [dict(id='two_w%d_%s' % (w, 'rev' if r else 'fwd'), pre=['w0 == %d' % w, 'rev == %s' % bool(r), 'two == True', 'w3 <= 1', 'mask <= 7', 'mask2 <= 7']) for w in (1, 2) for r in (0, 1)]}),
+                         [dict(id='tapsR_w%d_%s_one' % (w, 'rev' if r else 'fwd'), pre=['w0 == %d' % w, 'rev == %s' % bool(r), 'two == False', 'tr == True', 'mask2 == 0']) for w in (1, 2) for r in (0, 1)] +
+                         [dict(id='two_w%d_%s' % (w, 'rev' if r else 'fwd'), pre=['w0 == %d' % w, 'rev == %s' % bool(r), 'two == True', 'tr == False', 'w3 <= 1', 'mask <= 7', 'mask2 <= 7']) for w in (1, 2) for r in (0, 1)]}),
     dict(name='L4_shared_caller_two_contigs', fn='_l4_two_contigs', engine='E1', timeout=_T, replay='replay.C14:replay',
          cases={'quick': [dict(id='%s_a%d' % ('G' if g else 'C', a), pre=['g == %s' % bool(g), ('a2 == %d' % a if g else 'a0 == %d' % a), ('b2 == 2' if g else 'b0 == 1')]) for g in (0, 1) for a in ((2,) if g else (1,))]}),
     dict(name='L3_dove_safe_span', fn='_l3_dove', engine='E1', timeout=_T, replay='replay.C14:replay'),
@@ -200,9 +204,9 @@ PROPERTY = dict(
     functions=['taps.TAPS.position_to_context', 'taps.TAPSMolecule.__init__/obtain_methylation_calls', 'molecule.Molecule.set_methylation_call_tags / get_consensus',
                'sequtils.get_consensus_dictionaries (dove-safe window)'],
     bounds=dict(context='contigs of 3 (every truncation at both ends) and 7 letters with a 3-letter window over ACGTN, reference base C and G, every observed base',
-                calls='4-letter contig over ACGT (+N at the end), one read (all 16 conversion patterns) or two reads (8x8 patterns), both strands, tags XM / MC / uC / sZ sz sX sx sH sh',
+                calls='4-letter contig over ACGT (+N at the end), one read (all 16 conversion patterns) or two reads (8x8 patterns), both strands, taps_strand F (all cases) and R (one read, contigs starting with C or G), tags XM / MC / uC / sZ sz sX sx sH sh',
                 dove='one dove-tailed pair, candidate C inside / outside the mate-overlap-safe span, allow_unsafe_base_calls on/off'),
-    outside=['taps_strand R (mirror of F by construction of expected_base_to_be_converted)', 'classifier-based consensus', 'reference variants', 'colour tag YC'],
+    outside=['classifier-based consensus', 'reference variants', 'colour tag YC'],
     assumptions=['reference letters may be soft-masked (lower case) in the FASTA; the context is case-insensitive', 'FakeFasta fetch contract (validated against pysam.FastaFile at preflight)', 'FakeRead.get_aligned_pairs(with_seq=True) returns the reference base (MD semantics)',
                  'a context whose first two bases are CG is a CpG context even when the third base is missing (contig end) or N'],
     trusted=['stubs/fakefasta.py', 'stubs/fakeread.py', 'spec/c14.py'],
